@@ -68,6 +68,14 @@ func (c14Service) Export(ctx context.Context, req *collogpb.ExportLogsServiceReq
 	return resp, nil
 }
 
+// c14Headers: the headers of a Headers configuration (nil otherwise).
+func c14Headers(c verifc14.Config) map[string]string {
+	if c.Headers {
+		return map[string]string{"c14": "v"}
+	}
+	return nil
+}
+
 func TestVerifC14(t *testing.T) {
 	recs := c14Records()
 	conn := new(grpc.ClientConn) // never used: the service client made from it is replaced; not closed by Shutdown (not "ours")
@@ -80,7 +88,7 @@ func TestVerifC14(t *testing.T) {
 		// Exporter.Shutdown takes clientMu, which Export holds for the whole upload.
 		ShutdownMode: func(bool) verifc14.ShutMode { return verifc14.AsyncSerial },
 		New: func(c verifc14.Config) verifc14.Exporter {
-			e, err := New(context.Background(), WithGRPCConn(conn),
+			e, err := New(context.Background(), WithGRPCConn(conn), WithHeaders(c14Headers(c)),
 				WithRetry(RetryConfig{Enabled: c.Enabled, InitialInterval: c.Initial, MaxInterval: c.MaxInterval, MaxElapsedTime: c.MaxElapsed}))
 			if err != nil {
 				panic(err)
